@@ -110,6 +110,82 @@ def param_model_expr(c):
     return f'exec_out {q} {values.rows_to_coq(c["rows"])}'
 
 
+def binding_order_cases(rng, n):
+    """Positional placeholders in the targets AND in the FROM clause (subquery / FROM expression): FROM is compiled
+    before the targets, textual order must still decide. Oracle: the same statement with literals."""
+    out = []
+    for _ in range(n):
+        a, b, c = (rng.choice([0, 1, 2, 3, 5, 7]) for _ in range(3))
+        shape = rng.randrange(4)
+        if shape == 0:
+            ptext = 'SELECT c0, %s AS tag FROM (SELECT a AS c0 FROM #t WHERE a < %s)'
+            ltext = f'SELECT c0, {a} AS tag FROM (SELECT a AS c0 FROM #t WHERE a < {b})'
+            params = [a, b]
+        elif shape == 1:
+            ptext = 'SELECT %s + a, %s FROM a >= %s WHERE a != %s'
+            ltext = f'SELECT {a} + a, {b} FROM a >= {c} WHERE a != {a}'
+            params = [a, b, c, a]
+        elif shape == 2:
+            ptext = 'SELECT %s, c0 FROM (SELECT a + %s AS c0 FROM (SELECT a FROM #t WHERE a > %s)) WHERE c0 != %s'
+            ltext = f'SELECT {a}, c0 FROM (SELECT a + {b} AS c0 FROM (SELECT a FROM #t WHERE a > {c})) WHERE c0 != {b}'
+            params = [a, b, c, b]
+        else:
+            ptext = 'SELECT a, %s FROM #t WHERE a IN (SELECT a FROM #t WHERE a <= %s) ORDER BY (a * %s) DESC'
+            ltext = f'SELECT a, {a} FROM #t WHERE a IN (SELECT a FROM #t WHERE a <= {b}) ORDER BY (a * {c - 3}) DESC'
+            params = [a, b, c - 3]
+            ltext = ltext.replace('* -', '* (-').replace(') DESC', ')) DESC') if c - 3 < 0 else ltext
+        out.append({'ptext': ptext, 'ltext': ltext, 'params': params})
+    return out
+
+
+def run_binding_impl(c):
+    t = impl.make_table('t', [('a', int)], [(i,) for i in range(8)])
+    t.update = lambda **kw: t
+    conn = impl.connection({'t': t, 'postings': t})
+    out = []
+    for text, params in ((c['ptext'], c['params']), (c['ltext'], None)):
+        try:
+            out.append([0, values.canon_rows(conn.execute(text, params).fetchall())])
+        except Exception as e:  # noqa: BLE001
+            out.append(['exception', impl.exc_class(e), str(e)[:200]])
+    return out
+
+
+EQ_PARAMS = [1, True, decimal.Decimal('1'), decimal.Decimal('1.00'), 0, False, decimal.Decimal('0'), decimal.Decimal('0.0'), 2]
+
+
+def same_cursor_history(rng):
+    """One cursor object re-used with parameters that are == but of different type / exponent (1, TRUE, 1.00 ...),
+    with the same text, the same parsed statement and executemany. Oracle: a fresh connection per execution."""
+    texts = ['SELECT %s AS p, str(%s) AS s FROM #t WHERE a < 2', 'SELECT %(x)s AS p FROM #t WHERE a = 0']
+    steps = []
+    for _ in range(rng.randint(2, 6)):
+        ti = rng.randrange(2)
+        v = rng.choice(EQ_PARAMS)
+        w = rng.choice(EQ_PARAMS)
+        steps.append((ti, [v, w] if ti == 0 else {'x': v}, rng.random() < 0.5))
+    return {'texts': texts, 'steps': steps}
+
+
+def run_same_cursor(h):
+    table = impl.make_table('t', [('a', int)], [(0,), (1,), (2,)])
+    conn = impl.connection({'t': table})
+    cur = conn.cursor()
+    parsed = [conn.parse(t) for t in h['texts']]
+    got, want = [], []
+    for ti, params, use_parsed in h['steps']:
+        def run(c, stmt):
+            try:
+                c.execute(stmt, params)
+                return [0, [(d.name, d.datatype.__name__) for d in c.description], values.canon_rows(c.fetchall())]
+            except Exception as e:  # noqa: BLE001
+                return ['exception', impl.exc_class(e), str(e)[:100]]
+        got.append(run(cur, parsed[ti] if use_parsed else h['texts'][ti]))
+        fresh = impl.connection({'t': impl.make_table('t', [('a', int)], [(0,), (1,), (2,)])})
+        want.append(run(fresh.cursor(), h['texts'][ti]))
+    return got, want
+
+
 # ---- (b) folding
 class ColMarkGen(exprgen.Gen):
     def col(self, t):
@@ -416,6 +492,21 @@ def run(tier, rng):
     fm = models[len(nmodel_p):len(nmodel_p) + len(fc)]
     hm = models[len(nmodel_p) + len(fc):]
     seen = set()
+    bc = binding_order_cases(rng, 120 if tier == 'quick' else 1500)
+    for c, (wp, wl) in zip(bc, core.pmap(run_binding_impl, bc)):
+        if wp != wl and len(seen) < 2:
+            sig = 'binding-order:' + c['ptext'] + ' ' + repr(c['params'])
+            seen.add(sig)
+            violations.append(core.Violation('binding-order', f'{c["ptext"]} {c["params"]}: with parameters {wp}, with the values written '
+                                             f'as literals ({c["ltext"]}) {wl}', {'kind': 'binding', 'case': c}, signature=sig))
+    sc = [same_cursor_history(rng) for _ in range(150 if tier == 'quick' else 2000)]
+    for h, (got, want) in zip(sc, core.pmap(run_same_cursor, sc)):
+        if got != want and len(seen) < 4:
+            sig = 'same-cursor:' + repr(h['steps'])
+            seen.add(sig)
+            violations.append(core.Violation('same-cursor-history', f'one cursor re-used for {h["steps"]} on {h["texts"]}: {got} but a fresh '
+                                             f'connection gives {want}', {'kind': 'same-cursor', 'history': h, 'got': got, 'want': want},
+                                             signature=sig))
     nph_hist, folded_n, hist_ops = {}, 0, {}
     for c, (wp, wl) in zip(pc, p_impl):
         nph_hist[c['nph']] = nph_hist.get(c['nph'], 0) + 1
@@ -468,7 +559,7 @@ def run(tier, rng):
     nontrivial = len({c['ptext'] + repr(c['params']) for c in pc if c['nph'] >= 2}) + \
         len({show_history(h) for h in hs if sum(o[0] in ('exec_ast', 'exec_many') for o in h) >= 2})
     cov = {
-        'evaluations': len(pc) + len(fc) + len(hs) + nwork, 'distinct_nontrivial': nontrivial,
+        'evaluations': len(pc) + len(fc) + len(hs) + nwork + len(bc) + len(sc), 'binding_order_cases': len(bc), 'same_cursor_histories': len(sc), 'distinct_nontrivial': nontrivial,
         'rule': '(a) random statements whose constants are replaced by %s / %(name)s placeholders (targets, WHERE, ORDER BY '
                 'expressions, wrapped in a subquery; repeated names) compared with the literal form and the model; (b) random constant '
                 'expressions evaluated folded vs per row from a one-row table of constant columns vs model; (c) random histories of '
